@@ -7,7 +7,7 @@
    sizes and all data-member registers are exactly as before (strong guarantee incl. "nothing leaked"). *)
 From Coq Require Import List Arith Lia Bool ZArith.
 From MomoCommon Require Import GenPrelude.
-From C04 Require Gen_OpenN1_exn Gen_Open2N2_exn OpenExn Gen_LimP4_exn LimP4Exn OpenRefine Gen_ArrReset_exn ArrResetExn Gen_C04Facts FactsTie Gen_XCheckH Gen_XCheckT XCheck NonVacuity MigrateStep.
+From C04 Require Gen_OpenN1_exn Gen_Open2N2_exn OpenExn Gen_LimP4_exn LimP4Exn OpenRefine Gen_ArrReset_exn ArrResetExn Gen_C04Facts FactsTie Gen_XCheckH Gen_XCheckT XCheck NonVacuity MigrateStep RelocFacts.
 From C04 Require Import Effects ObjMgr ArrayData Ctor KeyValue Tree Relocator Replace PlanWf MultiMap SetCount HashGrow Shifter.
 Import ListNotations.
 
@@ -839,3 +839,29 @@ Theorem migration_interrupted_by_throwing_copy :
              MigrateStep.mig_obs MigrateStep.mig_plan (hp s') = [Some 10; Some 11].
 Proof. exact MigrateStep.mig_plan_interrupted_run. Qed.
 Print Assumptions migration_interrupted_by_throwing_copy.
+
+(* ---- ObjectManager::pvRelocateExec (not nothrow relocatable) at AST facts of the current headers (mutant M3): statement order of body / try block /
+   copy loop pinned; the handler read off the headers -- Destroy(memManager, dstBegin, index); throw; -- is interpreted into the hand model and the
+   GENERAL strong-guarantee theorem (every count, executor, category, schedule; same statement as relocate_exec_strong) is stated for that handler *)
+Theorem relocate_exec_strong_at_current_headers :
+  Gen_C04Facts.relocexec_body = RelocFacts.body_expected /\ Gen_C04Facts.relocexec_try = RelocFacts.try_expected /\
+  Gen_C04Facts.relocexec_loop = RelocFacts.loop_expected /\
+  forall (src dst : nat -> loc) (n : nat) (exec : M unit) (fp : loc -> Prop) (P : heap -> Prop) (R : heap -> heap -> Prop),
+    exec_spec exec fp P R -> (forall j, j < n -> ~ fp (src j) /\ ~ fp (dst j)) ->
+    forall c s, range_pre src dst n (hp s) -> P (hp s) ->
+      wp (RelocFacts.relocate_exec_at (RelocFacts.handler_of Gen_C04Facts.relocexec_catch) c src dst n exec) s
+         (fun _ s' => moved_range src dst n fp (hp s) (hp s') /\ R (hp s) (hp s'))
+         (fun s' => unchanged (hp s) (hp s')).
+Proof. exact RelocFacts.relocate_exec_at_generated. Qed.
+Print Assumptions relocate_exec_strong_at_current_headers.
+
+Theorem relocate_exec_handler_is_the_models :
+  forall c src dst n e, RelocFacts.relocate_exec_at RelocFacts.HDestroyCopied c src dst n e = relocate_exec c src dst n e.
+Proof. exact RelocFacts.relocate_exec_at_destroy. Qed.
+Print Assumptions relocate_exec_handler_is_the_models.
+
+Theorem relocate_exec_rethrow_only_handler_refuted :
+  exists s', RelocFacts.relocate_exec_at RelocFacts.HRethrowOnly CPY (fun j => (0, j)) (fun j => (1, j)) 2 (ret tt) (mkS RelocFacts.rx_heap [false; true] []) = (Exn, s') /\
+             mem (hp s') (1, 0) = Live 10.
+Proof. exact RelocFacts.relocate_exec_rethrow_only_refuted. Qed.
+Print Assumptions relocate_exec_rethrow_only_handler_refuted.
